@@ -200,6 +200,9 @@ func (Engine) Execute(t *testing.T, cfg simkit.RunConfig, scenario any) *simkit.
 		}
 		vs = append(vs, simkit.Violation{Property: "C01", Class: "backend-panic", Sig: sig, Detail: p})
 	}
+	for _, f := range simkit.TakeFatals() {
+		vs = append(vs, simkit.Violation{Property: cfg.Property, Class: "fatal-log", Sig: firstWords(f, 4), Detail: "the library logged at Fatal level (the process would have exited): " + f})
+	}
 	if w.ref != nil {
 		for _, m := range w.ref.Misrouted {
 			vs = append(vs, simkit.Violation{Property: "C01", Class: "misrouted-request", Sig: firstWords(m, 2), Detail: m})
